@@ -37,6 +37,12 @@ TRUSTED_BASE = [
 ]
 
 
+# extension modules and the properties whose theorems they build on (audited in those properties' thorough tier)
+LAW_MODULES = {"Laws": ("C01", "C02", "C03", "C05", "C06", "C07", "C08"),
+               "Laws2": ("C03", "C06", "C07", "C08", "C11", "C18"),
+               "Laws3": ("C09", "C10", "C11", "C12", "C13", "C14", "C15", "C19")}
+
+
 def env_offline():
     e = dict(os.environ)
     e["CARGO_NET_OFFLINE"] = "true"
@@ -123,7 +129,7 @@ def proof_step(pid, tier, log):
             rc, out, err = run(["lake", "env", "lean", audit], cwd=LEAN, timeout=1800)
             text = out + err
         # "'Bnum.foo' depends on axioms: [propext, Quot.sound]"  /  "'Bnum.foo' does not depend on any axioms"
-        for m in re.finditer(r"'([^']+)' (depends on axioms: \[([^\]]*)\]|does not depend on any axioms)", text, re.S):
+        for m in re.finditer(r"'(\S+)' (depends on axioms: \[([^\]]*)\]|does not depend on any axioms)", text, re.S):
             name = m.group(1)
             axs = set(a.strip() for a in (m.group(3) or "").replace("\n", " ").split(",") if a.strip())
             res["obligations"] += 1
@@ -147,6 +153,24 @@ def proof_step(pid, tier, log):
         if rc != 0:
             res["ok"] = False
             res["problems"].append("leanchecker rejected: " + (out + err)[-1000:])
+    if tier == "thorough":
+        # extension beyond the twenty properties: the algebraic and cross-module laws of Props/Laws*.lean are
+        # corollaries of the property theorems over the same model.  A failure here is reported as a WARNING
+        # and in the evidence, never as a violation of a listed property.
+        res["extra_laws"] = []
+        for lawmod, pids in LAW_MODULES.items():
+            if pid not in pids:
+                continue
+            rc, out, err = run(["lake", "build", f"Bnum.Audit.{lawmod}"], cwd=LEAN, timeout=7200)
+            text = out + err
+            if rc == 0 and "depends on axioms" not in text:
+                rc, out, err = run(["lake", "env", "lean", os.path.join(LEAN, "Bnum", "Audit", lawmod + ".lean")], cwd=LEAN, timeout=7200)
+                text = out + err
+            laws = re.findall(r"'(\S+)' (?:depends on axioms: \[([^\]]*)\]|does not depend on any axioms)", text, re.S)
+            bad = [n for n, ax in laws if set(a.strip() for a in ax.replace("\n", " ").split(",") if a.strip()) - ALLOWED_AXIOMS]
+            res["extra_laws"].append({"module": f"Bnum.Props.{lawmod}", "build_ok": rc == 0, "laws_audited": len(laws), "unexpected_axioms": bad})
+            if rc != 0 or bad or not laws:
+                print(f"WARNING: extension module Bnum.Props.{lawmod} (not one of the listed properties) no longer checks: " + (text[-300:] if rc else str(bad)))
     return res
 
 
@@ -445,6 +469,8 @@ def main():
         "wall_s": round(time.time() - t0, 2),
         "violations": len(violations) + (1 if (status == 1 and not violations) else 0),
     }
+    if proof.get("extra_laws"):
+        ev["coverage"]["extra_laws"] = proof["extra_laws"]
     if hasattr(mod, "evidence_extra"):
         ev["coverage"].update(mod.evidence_extra(ctx) or {})
     # development runs (--skip-proof: mutation trials etc.) must not overwrite the registered evidence
